@@ -67,6 +67,9 @@ def _ty_matches(pat, ty, depth=0):
         return len(pa) == len(ta) and all(_ty_matches(x, y, depth + 1) for x, y in zip(pa, ta))
     if pat.get('k') in ('ref', 'ptr'):
         return _ty_matches(pat.get('ty'), ty.get('ty'), depth + 1)
+    if pat.get('k') == 'tuple':
+        pa, ta = pat.get('tys') or [], ty.get('tys') or []
+        return len(pa) == len(ta) and all(_ty_matches(x, y, depth + 1) for x, y in zip(pa, ta))
     return True
 
 
@@ -200,6 +203,12 @@ class Engine:
             for n, fv in v[3]:
                 if n == e:
                     return fv
+            g_ = getattr(self.F, 'group_fields', None)
+            if g_ and (v[1], e) in g_:
+                sub_ = self.F.adts_orig.get(g_[(v[1], e)])
+                names_ = set(f_['name'] for f_ in sub_['variants'][0]['fields']) if sub_ else set()
+                return ('agg', g_[(v[1], e)], sub_['variants'][0]['name'] if sub_ else v[2],
+                        tuple((n, fv) for n, fv in v[3] if n in names_))
             return ('field', v, e)
         if tag == 'tuple' and isinstance(e, str) and e.isdigit() and int(e) < len(v[1]):
             return v[1][int(e)]
@@ -365,15 +374,35 @@ class Engine:
     # ------------------------------------------------------------ evaluation
     def eval_place(self, st, frame, place):
         loc = (('L', frame, place['l']),)
+        groups = getattr(self.F, 'group_fields', None)
+        ty = None
+        if groups and place['p']:
+            fn_ = st.frame_fn.get(frame) or {}
+            ls_ = fn_.get('locals') or []
+            ty = ls_[place['l']]['ty'] if place['l'] < len(ls_) else None
+        variant = None
         for p in place['p']:
             if p == '*':
                 loc = self.deref(self.read(st, loc))
+                if ty is not None:
+                    ty = ty.get('ty') if ty.get('k') in ('ref', 'ptr') else None
             elif isinstance(p, dict) and 'f' in p:
+                if ty is not None and ty.get('k') == 'adt':
+                    fty = self.F.field_ty(ty, p['f'], variant)
+                    if (ty.get('path'), p['f']) in groups:
+                        ty, variant = fty, None
+                        continue            # the hop through a field group (see Facts._flatten_field_groups)
+                    ty = fty
+                else:
+                    ty = None
+                variant = None
                 loc = loc + (p['f'],)
             elif isinstance(p, dict) and 'dc' in p:
                 loc = loc + (('dc', p['dc']),)
+                variant = p['dc']
             else:
                 loc = loc + ('[]',)
+                ty = None
         return loc
 
     def deref(self, v):
@@ -537,6 +566,16 @@ class Engine:
             ops = [self.eval_operand(st, frame, o) for o in rv['ops']]
             k = rv['agg']
             if k == 'adt':
+                groups = getattr(self.F, 'group_fields', None)
+                if groups and any((rv['adt'], n_) in groups for n_ in rv['fields']):
+                    # splice the fields of a field group into the struct that holds it
+                    out_ = []
+                    for n_, v_ in zip(rv['fields'], ops):
+                        if (rv['adt'], n_) in groups and v_[0] == 'agg' and v_[1] == groups[(rv['adt'], n_)]:
+                            out_.extend(v_[3])
+                        else:
+                            out_.append((n_, v_))
+                    return ('agg', rv['adt'], rv['variant'], tuple(out_))
                 return ('agg', rv['adt'], rv['variant'], tuple(zip(rv['fields'], ops)))
             if k == 'tuple':
                 return ('tuple', tuple(ops))
@@ -633,6 +672,12 @@ class Engine:
                 return mine[0], None
             if not mine and len(default) == 1:
                 return default[0], {'Self': selfty}
+        if selfty and selfty.get('k') in ('tuple', 'ref', 'ptr', 'array', 'slice'):
+            # an impl for a non-nominal type (`impl<T> Settle for (Poll<()>, Option<T>)`): match the shape
+            mine = [f for f in impls if _ty_matches((self.F.impl_by_id.get(f.get('impl')) or {}).get('self_ty'), selfty)
+                    and ((self.F.impl_by_id.get(f.get('impl')) or {}).get('self_ty') or {}).get('k') == selfty.get('k')]
+            if len(mine) == 1:
+                return mine[0], None
         # (no "the only implementor" shortcut: a generic function analysed on its own stays generic, whatever the
         # feature configuration leaves as implementors)
         return None, None
@@ -760,7 +805,20 @@ class Engine:
                 continue
             if k == 'drop':
                 loc = self.eval_place(st, frame, t['place'])
-                st.events.append({'k': 'drop', 'loc': loc, 'val': self.read(st, loc), 'ty': t['ty'],
+                dty = t['ty']
+                sub_ = st.frame_subst.get(frame)
+                if sub_:
+                    # inside an inlined generic helper: the dropped type with the helper's parameters replaced by what
+                    # they stand for in this instance (`Option<H>` is `Option<&dyn ChannelSendAccess>` here)
+                    try:
+                        from autotrait import subst as _subst_deep
+                        dty = _subst_deep(dty, sub_)
+                        if dty is not t['ty'] and 'str' in dty:
+                            dty = dict(dty)
+                            dty['str'] = t['ty'].get('str', '') + ' [instance]'
+                    except Exception:
+                        dty = t['ty']
+                st.events.append({'k': 'drop', 'loc': loc, 'val': self.read(st, loc), 'ty': dty,
                                   'fn': fn['path'], 'ln': t['ln'], 'frame': frame})
                 bbi = t['t']
                 continue
@@ -1304,6 +1362,35 @@ class Engine:
                 self.write(st, loc + ('start',), nxt)
                 outs.append((st, some(start)))
             return outs
+        # ---- iter::successors(first, f) and `.last()` on it: the walk `cur = first; while let Some(n) = f(&cur) { cur = n }`
+        if name == 'successors' and 'iter' in path and len(args) == 2:
+            return [(st, ('succ', args[0], args[1]))]
+        if name == 'last' and args and args[0][0] == 'succ':
+            outs = []
+            _s, first, clo = args[0]
+            for st1, cur in self._opt_split(st, first):
+                if cur is None:
+                    outs.append((st1, NONE))
+                    continue
+                work = [(st1, cur, 0)]
+                while work:
+                    st2, c, k = work.pop()
+                    if k >= self.max_visits - 1:
+                        st2.pruned += 1       # more steps than the unrolling bound: not enumerated (as for a loop)
+                        continue
+                    eid_ = st2.eid()
+                    tmp = (('C', eid_),)
+                    st2.store[tmp] = c
+                    for st3, nxt in self.call_closure(st2, clo, [('ref', tmp)]):
+                        if nxt is PANIC:
+                            outs.append((st3, PANIC))
+                            continue
+                        for st4, n2 in self._opt_split(st3, nxt):
+                            if n2 is None:
+                                outs.append((st4, some(c)))
+                            else:
+                                work.append((st4, n2, k + 1))
+            return outs
         if name == 'into_iter' and len(args) == 1 and args[0][0] == 'agg' and str(args[0][1]).endswith('ops::Range'):
             return [(st, args[0])]
         # ---- checked arithmetic on unsigned integers: checked_sub(a, b) is Some(a - b) iff a >= b
@@ -1749,6 +1836,23 @@ class Engine:
                                   'callee': fpath, 'name': short, 'eid': st.eid()})
                 yield st, UNIT
                 return
+            # any other std function passed as a value (`Option::take`, `Option::is_some`, ..): what a direct call of it
+            # would be summarised as
+            if callee is None:
+                base_ = strip_generics_(fpath)
+                radt_ = base_.rsplit('::', 1)[0] if '::' in base_ else None
+                ci_ = {'path': fpath, 'name': short, 'rpath': fpath, 'radt': radt_, 'rtrait': '', 'trait': None,
+                       'rlocal': False, 'krate': 'core', 'gargs': [], 'resolved_gargs': []}
+                fr_ = st.nframe
+                fn_ = st.frame_fn.get(fr_) or {'path': st.stack[-1] if st.stack else '?'}
+                try:
+                    res_ = self.summary(fn_, fr_, st, {'ln': 0, 'argtys': [], 'dest_ty': '', 't': 0}, ci_, list(params))
+                except Exception:
+                    res_ = None
+                if res_ is not None:
+                    for st2, rv in res_:
+                        yield st2, rv
+                    return
             if short == 'clone' and params:
                 eid = st.eid()
                 st.events.append({'k': 'call', 'callee': fpath, 'name': 'clone', 'args': tuple(params),
